@@ -2,7 +2,7 @@
 \* time passes (Tick, less than the code can still be activated) while an activation that holds the claim is still
 \* in flight, or before a stale reader reaches its claim; the claim is gone, a second activator wins SetNX again.
 \* EXPECTED RESULT: TLC reports "Invariant AtMostOneSuccess is violated". With ShortClaim = FALSE: no error.
-\*   tlc -workers 8 -config ConnCode_shortclaim.cfg ConnCode.tla
+\*   tlc -workers 8 -config ConnCode_show_shortclaim.cfg ConnCode.tla
 CONSTANTS
   Acts = {"a1", "a2"}
   HasRev = FALSE
@@ -17,6 +17,8 @@ CONSTANTS
   SameAs = {}
   Reclaim = FALSE
   ResetOnFail = FALSE
+  ResetCreate = FALSE
+  RelScope = "fail"
   CanTick = TRUE
   ShortClaim = TRUE
   Emit = FALSE
